@@ -137,7 +137,11 @@ def run(ctx: Ctx):
     placeholder_modes = set()
     for m_ in padm:
         node_m, _ = specialise(gpb.node, {"mode": m_})
-        if any(isinstance(n, ast.Assign) and len(n.targets) == 2 and u(n.value) == gpb.params[0].name for n in node_m.body):
+        # both returned buffers are the input itself (whichever way the two names were bound to it)
+        from sa.inline import Inliner as _InlP
+        inl_m = _InlP(node_m)
+        rets_m = [r for r in ast.walk(node_m) if isinstance(r, ast.Return) and isinstance(r.value, ast.Tuple) and len(r.value.elts) == 2]
+        if rets_m and all(inl_m.text(e) == gpb.params[0].name for r in rets_m for e in r.value.elts):
             placeholder_modes.add(m_)
     col.ob("G8", "S2", f"{rel}::_get_padding_buffers::placeholder-modes", placeholder_modes == {"constant"},
            f"the kernel returns placeholder buffers for modes {sorted(placeholder_modes)}", rel, gpb.line)
